@@ -218,11 +218,21 @@ pub fn run_case<E: Engine>(case: &E::Case, st: &mut Stats) -> Outcome {
 
 // ---------------------------------------------------------------- replay files
 
+/// which build profile this binary is: "checked" = overflow checks and debug assertions on
+pub fn profile_name() -> &'static str {
+    if cfg!(debug_assertions) {
+        "checked"
+    } else {
+        "release"
+    }
+}
+
 pub fn replay_json<E: Engine>(seed: Option<u64>, case: &E::Case, v: Option<&Violation>, note: &str) -> Json {
     crate::jobj! {
         "format" => "xehsim-replay-1",
         "engine" => E::NAME,
         "property" => E::PROP,
+        "profile" => profile_name(),
         "seed" => seed.map(|s| s as i128),
         "note" => note,
         "violation" => v.map(|v| v.to_json()),
